@@ -1497,6 +1497,8 @@ namespace bloch::runtime {
                     if (m_hasReturn)
                         break;
                 }
+                // a 'return' ends this destructor only; the base class's destructor still runs
+                m_hasReturn = false;
                 endScope();
                 m_inDestructor = prevDtor;
                 m_inConstructor = prevCtor;
